@@ -213,14 +213,17 @@ def _memcmp(I, a):
     n = conc(I, a[2], 'memcmp length')
     if n == 0: return 0
     x = I.read_bytes(a[0], n); y = I.read_bytes(a[1], n)
-    for i in range(n):
+    # concrete prefix decides; a symbolic tail becomes one ite-chain (no forking per byte)
+    res = None
+    for i in range(n - 1, -1, -1):
         if isinstance(x[i], int) and isinstance(y[i], int):
-            if x[i] != y[i]: return mask(-1, 32) if x[i] < y[i] else 1
-        else:
-            zx = to_bv(x[i], 8); zy = to_bv(y[i], 8)
-            if I.decide(zx == zy): continue
-            return mask(-1, 32) if I.decide(z3.ULT(zx, zy)) else 1
-    return 0
+            if x[i] != y[i]: res = mask(-1, 32) if x[i] < y[i] else 1
+            continue
+        zx = to_bv(x[i], 8); zy = to_bv(y[i], 8)
+        tail = to_bv(res if res is not None else 0, 32)
+        res = SV(z3.If(zx == zy, tail, z3.If(z3.ULT(zx, zy), z3.BitVecVal(mask(-1, 32), 32), z3.BitVecVal(1, 32))))
+    if res is None: return 0
+    return sv(res.e) if isinstance(res, SV) else res
 @ext('strcmp')
 def _strcmp(I, a):
     x = I.cstr(a[0]); y = I.cstr(a[1])
@@ -693,6 +696,8 @@ def _v_isint(I, a):
     if isinstance(v, (Fraction, int)): return 1 if Fraction(v).denominator == 1 else 0
     if isinstance(v, float): return 1 if v == v and v not in (INF, -INF) and v == math.floor(v) else 0
     raise Unsupported('verif_is_integer of %r' % (v,))
+@ext('verif_need_module')
+def _v_need_module(I, a): return None
 @ext('verif_log_accesses')
 def _v_log(I, a):
     I.logging = bool(a[0]); return None
